@@ -58,6 +58,18 @@ def Dy.ofIntF (i : Int) : Dy :=
   let v : Int := (q * 2 ^ k : Nat)
   ⟨if i < 0 then -v else v, 0⟩
 
+/-- `(double)i`: round to nearest, ties to even, to a 53-bit significand -/
+def Dy.ofIntD (i : Int) : Dy :=
+  let a := i.natAbs
+  let bl := bitLen (a + 1) a
+  if bl ≤ 53 then ⟨i, 0⟩ else
+  let k := bl - 53
+  let q := a / 2 ^ k
+  let r := a % 2 ^ k
+  let q := if 2 * r > 2 ^ k ∨ (2 * r = 2 ^ k ∧ q % 2 = 1) then q + 1 else q
+  let v : Int := (q * 2 ^ k : Nat)
+  ⟨if i < 0 then -v else v, 0⟩
+
 /-! ## values, blocks, heap -/
 
 abbrev Bytes := List UInt8
@@ -297,6 +309,15 @@ def assignString (σ : State) (t : Loc) (s : Bytes) : Except Err State :=
       else writeLoc σ t (.str s)          -- free() of an SSTRING releases nothing
     | _ => storeV σ t (if s.length < 8 then .sstr s else .str s)
 
+/-- `p = *p + off` for a string Var: `operator=(const char*)` with a pointer into the Var's own buffer (memmove since
+commit 0cc196d); the result is the suffix, of the same kind (a STRING stays a STRING, an SSTRING an SSTRING) -/
+def assignSuffix (σ : State) (t : Loc) (off : Nat) : Except Err State :=
+  match readLoc σ t with
+  | .error e => .error e
+  | .ok (.str s) => if off ≤ s.length then assignString σ t (s.drop off) else .error .badarg
+  | .ok (.sstr s) => if off ≤ s.length then assignString σ t (s.drop off) else .error .badarg
+  | .ok _ => .error .badarg
+
 /-! ## constructors -/
 
 /-- `Var(const char*)`, `Var(const String&)` -/
@@ -307,6 +328,9 @@ def mkInt (i : Int) : V := .int i
 def mkUnsigned (u : Nat) : V := if u < 2147483648 then .int u else .num (Dy.ofInt u)
 /-- `Var(Long)`, `Var(ULong)`: always NUMBER (`(double)y`, exact for |y| < 2^53) -/
 def mkLong (x : Int) : V := .num (Dy.ofInt x)
+/-- `Var(ULong)` / `operator=(ULong)` (commit c047585: no detour through `Long`): NUMBER `(double)u`, exact below 2^53,
+rounded to nearest-even above -/
+def mkULong (u : Nat) : V := .num (if u < 9007199254740992 then Dy.ofInt u else Dy.ofIntD u)
 /-- `Var(long)` / `operator=(long)` on LP64 (commit 6c0507b): INT inside the int range, NUMBER outside -/
 def mkNativeLong (x : Int) : V := if -2147483648 ≤ x ∧ x < 2147483648 then .int x else .num (Dy.ofInt x)
 /-- `Var(unsigned long)` / `operator=(unsigned long)` -/
@@ -338,6 +362,10 @@ def mkType (h : Heap) (t : Nat) : Except Err (Heap × V) :=
   else if t = tSTRING then .ok (h, .str [])          -- commit 193448d: one terminator byte
   else if t = tARRAY then let (h', id) := allocB h (emptyBlock false); .ok (h', .arr id)
   else if t = tOBJ then let (h', id) := allocB h (emptyBlock true); .ok (h', .obj id)
+  else if t = tINT then .ok (h, .int 0)              -- commit 11663a3: numbers and booleans start at zero / false
+  else if t = tNUMBER then .ok (h, .num (Dy.ofInt 0))
+  else if t = tFLOAT then .ok (h, .flt (Dy.ofInt 0))
+  else if t = tBOOL then .ok (h, .bool false)
   else .error .badarg
 
 /-! ## growth -/
@@ -447,7 +475,7 @@ def stepMut (guard : Bool) (σ : State) (l : Loc) (s : Step) : Except Err (State
       let σ1 ← writeLoc { σ with heap := h1 } l (.obj id)
       indexKey guard σ1 l id k
     | .obj id => indexKey guard σ l id k
-    | _ => throw .badarg                     -- Var[String] on an array or a scalar: outside the modelled domain
+    | _ => throw .badarg                     -- `Var[String]` on a scalar (asl_error, `return *this`); on an array see `normStep`
 
 /-- Would this application of the non-const `operator[]` to the Var at `l` move the element that the reference `src`
 designates?  In C++ the source operand of `p = q`, `p << q`, `p.extend(q)` is a `const Var&` evaluated BEFORE the
@@ -474,16 +502,37 @@ def invalidates (σ : State) (l : Loc) (s : Step) (src : Option Loc) : Bool :=
     | _ => false
   | _ => false
 
+/-- `myatoi` (String → int): an optional sign, then decimal digits up to the first other byte, accumulated modulo 2^32
+and read back as a 32-bit `int` -/
+def myatoi (s : Bytes) : Int :=
+  let (neg, ds) := match s with
+    | 45 :: r => (true, r)
+    | 43 :: r => (false, r)
+    | _ => (false, s)
+  let y : Nat := (ds.takeWhile fun c => 48 ≤ c && c ≤ 57).foldl (fun (acc : Nat) c => (10 * acc + (c.toNat - 48)) % 4294967296) 0
+  let u : Nat := if neg then (4294967296 - y) % 4294967296 else y
+  if u < 2147483648 then (u : Int) else (u : Int) - 4294967296
+
+/-- the step the non-const `operator[]` really takes: `Var::operator[](const String& k)` on an ARRAY forwards to
+`operator[]((int)k)` (commit 7407dbc), so the key is an index; a negative index is outside the domain (as for `[int]`) -/
+def normStep (σ : State) (l : Loc) (s : Step) : Except Err Step :=
+  match s, readLoc σ l with
+  | .key k, .ok (.arr _) => if myatoi k < 0 then .error .badarg else .ok (.idx (myatoi k).toNat)
+  | _, _ => .ok s
+
 /-- the path `root[s1][s2]…` evaluated left to right; the state keeps the effects of the steps already taken
 when a later step is refused.  `src`: the Var the source reference of the statement designates (if any). -/
 def resolveMut (guard : Bool) (src : Option Loc) : State → Loc → List Step → State × Except Err Loc
   | σ, l, [] => (σ, .ok l)
-  | σ, l, s :: rest =>
-    if guard && invalidates σ l s src then (σ, .error .srcMoved)
-    else
-      match stepMut guard σ l s with
-      | .error e => (σ, .error e)
-      | .ok (σ1, l1) => resolveMut guard src σ1 l1 rest
+  | σ, l, s0 :: rest =>
+    match normStep σ l s0 with
+    | .error e => (σ, .error e)
+    | .ok s =>
+      if guard && invalidates σ l s src then (σ, .error .srcMoved)
+      else
+        match stepMut guard σ l s with
+        | .error e => (σ, .error e)
+        | .ok (σ1, l1) => resolveMut guard src σ1 l1 rest
 
 /-! ## `operator[] const` -/
 
@@ -837,6 +886,26 @@ def toInt : V → Option Int
   | .sstr s => simpleDec s
   | _ => some 0
 
+/-- `operator Long() const`; `none` = outside the modelled libc behaviour / outside the Long range -/
+def toLong : V → Option Int
+  | .int i => some i
+  | .num d => let t := d.trunc; if -9223372036854775808 ≤ t ∧ t < 9223372036854775808 then some t else none
+  | .flt d => let t := d.trunc; if -9223372036854775808 ≤ t ∧ t < 9223372036854775808 then some t else none
+  | .str s => simpleDec s
+  | .sstr s => simpleDec s
+  | _ => some 0
+
+/-- `operator ULong() const` (commit c047585): a number from 2^63 on is converted directly, everything else goes
+through `Long` and wraps modulo 2^64 -/
+def toULong (v : V) : Option Nat :=
+  let big : Option Int := match v with
+    | .num d => if d.trunc ≥ 9223372036854775808 then some d.trunc else none
+    | .flt d => if d.trunc ≥ 9223372036854775808 then some d.trunc else none
+    | _ => none
+  match big with
+  | some t => if t < 18446744073709551616 then some t.toNat else none
+  | none => (toLong v).map fun x => (x % 18446744073709551616).toNat
+
 /-- `operator double() const` (NUL gives NaN: `Sum.inr ()`) -/
 def toDouble : V → Option (Dy ⊕ Unit)
   | .int i => some (.inl (Dy.ofInt i))
@@ -934,6 +1003,7 @@ inductive Lit
   | str (s : Bytes)      -- const String& / const char*
   | nlong (i : Int)      -- long (64-bit on LP64)
   | nulong (u : Nat)     -- unsigned long
+  | ulong (u : Nat)      -- ULong (unsigned long long): `Var(ULong)` / `operator=(ULong)` (commit c047585), always NUMBER
 deriving DecidableEq, Repr, Inhabited
 
 /-- `Var(x)` for a typed literal -/
@@ -947,6 +1017,7 @@ def Lit.toV : Lit → V
   | .str s => mkString s
   | .nlong i => mkNativeLong i
   | .nulong u => mkNativeULong u
+  | .ulong u => mkULong u
 
 structure Path where
   root : Nat
@@ -964,6 +1035,7 @@ inductive Op
   | removeKey (p : Path) (k : Bytes)
   | clear (p : Path)
   | extend (p q : Path)                  -- `p.extend(q);`
+  | setSub (p : Path) (off : Nat)        -- `p = *p + off;` the const char* assignment from inside the Var's own string
   | clone (k : Nat) (q : Path)           -- root k = `new Var(q.clone())`, old root destroyed afterwards
   | copy (k : Nat) (q : Path)            -- root k = `new Var(q)`
   | drop (k : Nat)                       -- root k destroyed, `new Var`
@@ -1116,6 +1188,7 @@ def opBody (guard : Bool) (σ : State) (t : Loc) (sl : Option Loc) : Op → Exce
   | .removeKey _ k => removeKeyV σ t k
   | .clear _ => clearV σ t
   | .extend _ _ => opExtend guard σ t sl
+  | .setSub _ off => assignSuffix σ t off
   | _ => .error .badarg
 
 /-- root k = `new Var(q.clone())`, then the old root is destroyed -/
@@ -1222,6 +1295,7 @@ def targetOf : Op → Option Path
   | .removeKey p _ => some p
   | .clear p => some p
   | .extend p _ => some p
+  | .setSub p _ => some p
   | _ => none
 
 /-- the source operand of a statement (a `const Var&`) -/
